@@ -460,7 +460,7 @@ pub fn prop() -> Prop<Case> {
     Prop {
         id: "C06",
         level: "exploration",
-        rule: "case = archive constructed so that the hazard exists: blocks that are garbage from the collector's point of view (referenced only by the version being deleted, or left by an interrupted backup) whose content reappears in the new source (in a quarter of the cases the versions are renumbered so that the backup creates b10000 beside b9999); actors G = delete_bands(S) / pure gc and B = backup(new source) on the same directory under the deterministic scheduler (exactly one storage operation in flight; an execution is a function of the schedule). Inner domain: switch points are derived from each actor's solo trace: 'all' brackets every lock-related, root-listing and mutating operation (capped at 10 quick / 60 thorough per actor), 'critical' is the handful around the lock test / lock write, band creation, first block write, the collector's re-check and its first deletions; every schedule with <=2 context switches over 'all' and every schedule with 3 switches over 'critical', in both starting orders, plus generated random schedules with up to 11 segments. Oracle: both actors return (Ok or Err, no panic); afterwards every version with a tail has, per the independent decoder, no address naming a missing block, and restores with no error to the tree it was made from. Non-trivial = hazard present and each actor performs >=1 operation between the other's lock check/lock write and its first mutation; schedules distinct by construction; since round 6 a quarter of the cases hold no version at all, only garbage blocks (a killed first backup whose directory a killed delete removed), and every look the backup takes at the archive before its first stored block is failed once (not-found, other) while the collector is paused at a critical point, also in schedules in which the backup had begun before the collector",
+        rule: "case = archive constructed so that the hazard exists: blocks that are garbage from the collector's point of view (referenced only by the version being deleted, or left by an interrupted backup) whose content reappears in the new source (in a quarter of the cases the versions are renumbered so that the backup creates b10000 beside b9999); actors G = delete_bands(S) / pure gc and B = backup(new source) on the same directory under the deterministic scheduler (exactly one storage operation in flight; an execution is a function of the schedule). Inner domain: switch points are derived from each actor's solo trace: 'all' brackets every lock-related, root-listing and mutating operation (capped at 10 quick / 60 thorough per actor), 'critical' is the handful around the lock test / lock write, band creation, first block write, the collector's re-check and its first deletions; every schedule with <=2 context switches over 'all' and every schedule with 3 switches over 'critical', in both starting orders, plus generated random schedules with up to 11 segments. Oracle: both actors return (Ok or Err, no panic); afterwards every version with a tail has, per the independent decoder, no address naming a missing block, and restores with no error to the tree it was made from. Non-trivial = hazard present and each actor performs >=1 operation between the other's lock check/lock write and its first mutation; schedules distinct by construction; since round 6 a quarter of the cases hold no version at all, only garbage blocks (a killed first backup whose directory a killed delete removed), and every look the backup takes at the archive before its first stored block is failed once (not-found, other) while the collector is paused at a critical point, also in schedules in which the backup had begun before the collector; since round 8 runs in which the head the backup has written is re-dated 8 and 400 days into the past (a backup under way that long) while it pauses at a critical point and the collector runs through",
         assumptions: &[
             "interleaving granularity is one transport operation; storage is sequentially consistent",
             "switch points are restricted to operations bracketing lock, listing and mutating operations, so the <=3-switch space is covered where it can matter, not exhausted",
